@@ -173,6 +173,8 @@ def check_C03(tier, seed):
     if not q:
         # algorithm layer: the binary search and the forward leap scan, as PlusCal shaped like the Rust, refine the declarative definitions
         res.add_mc(run_mc("AlgoSearch", dict(MaxLen=4, MaxVal=6), invariants=("Refines",), workers=8, timeout=3000, extra_cfg="PROPERTY Terminates\n", xmx="8g"))
+        # the same loop for a table of ANY length: machine-checked proof (TLAPS) that Ok(v) => v + 1 / Err(v) => v is the number of entries <= x
+        res.notes["tlaps_unbounded_proofs"] = [C.run_tlapm("proofs/BinSearch.tla")]
     res.notes["rule"] = "vectors: every zone of the scaled model (<= MaxTr transitions on 0..6, 5 type menus, 6 leap tables, rule none/fixed) x instants -7..14; events: table-length sweep 0..n with probes at every T-1/T/T+1, i64-extreme transition times, seeded random zones"
     return res.finish()
 
@@ -385,6 +387,11 @@ def check_C04(tier, seed):
     run_pipeline(res, binary, "vec", vec_path=vec, validate=True, nshards=16)
     os.remove(vec)
     run_pipeline(res, binary, "rules", gen_lines=gens.gen_c04(rng, 400 if q else 8000), nshards=12 if q else 16)
+    if not q:
+        # the 12-leaf evaluator against the period definition for EVERY interleaving rule and year (S, E, New Year as unconstrained
+        # functions under the hypotheses MC_Rule checks as NearOK): machine-checked proof (TLAPS); the southern case needs E(y) < S(y)
+        # in the current year - exactly what the recorded finding K2 violates
+        res.notes["tlaps_unbounded_proofs"] = [C.run_tlapm("proofs/RuleTree.tla")]
     res.notes["rule"] = "vectors: family of accepted rules (day-notation representatives x times x offset pairs) probed at S(y)-1, S(y), E(y)-1, E(y), New Year +-1 for sampled years of a cycle; events: corpus-shaped and seeded random accepted rules (all nine notation pairs, near-coincident days, |time| up to 7 days, offsets over the whole window) probed at S/E(y-1..y+1) +-1 s, New Year +-1 s/h/d, the year guard"
     return res.finish()
 
